@@ -2,7 +2,7 @@
 use crate::rng::Rng;
 use crate::{line, GOp, Out};
 use petgraph::graphmap::GraphMap;
-use petgraph::visit::{EdgeRef, IntoEdgeReferences, NodeIndexable};
+use petgraph::visit::{EdgeIndexable, EdgeRef, IntoEdgeReferences, NodeIndexable};
 use petgraph::{Directed, Direction, EdgeType, Undirected};
 use std::hash::{BuildHasher, BuildHasherDefault};
 use std::panic::{catch_unwind, AssertUnwindSafe};
@@ -34,6 +34,14 @@ fn battery<Ty: EdgeType, S: BuildHasher>(g: &GraphMap<i32, i32, Ty, S>) -> Vec<S
     let er: Vec<i64> = g.edge_references().flat_map(|e| vec![e.source() as i64, e.target() as i64, *e.weight() as i64]).collect();
     if er != trip(g.all_edges()) { v.push("edge-references-mismatch".into()); }
     if NodeIndexable::node_bound(g) != g.node_count() { v.push("node-bound-mismatch".into()); }
+    // EdgeIndexable: the i-th edge of all_edges has index i, from_index gives its key back, edge_bound is the edge count
+    if EdgeIndexable::edge_bound(g) != g.edge_count() { v.push("edge-bound-mismatch".into()); }
+    for (i, (a, b, _)) in g.all_edges().enumerate() {
+        match catch_unwind(AssertUnwindSafe(|| (EdgeIndexable::to_index(g, (a, b)), EdgeIndexable::from_index(g, i)))) {
+            Ok((ti, fi)) => if ti != i || fi != (a, b) { v.push(format!("edge-index-mismatch {}", i)); },
+            Err(_) => v.push(format!("edge-index-panic {}", i)),
+        }
+    }
     v
 }
 
